@@ -238,6 +238,7 @@ package schema
 // C16: the AST node of a type shortcut carries its text; an or-shortcut (any '|' in the text) has schema type "mixed"
 //@ func astNodeFromNode(n)
 //@   props C16
+//@   ensures normal ==> len(result.Children) == 0 && result.Children.$arr == 0 && result.TokenType == jsonTokenStr(jtypeOf(n))
 //@   requires isNode(n) && consReady(n)
 //@   requires hasRule(n, constraint.TypeConstraintType) && typeis(consOf(n).data[constraint.TypeConstraintType], *constraint.TypeConstraint) ==> ival(consOf(n).data[constraint.TypeConstraintType]) != 0 && len(unbox(consOf(n).data[constraint.TypeConstraintType], *constraint.TypeConstraint).value) <= 1000000000000
 //@   maypanic
@@ -273,3 +274,27 @@ package schema
 //@ interface Node.RealType(self)
 //@   requires isNode(self)
 //@   pure
+
+// C16: the AST node of a literal carries the DECODED literal value of its lexeme
+//@ func (baseNode).Value()
+//@   props C16
+//@   requires lexWF(n.schemaLexEvent)
+//@   nopanic
+//@   ensures result.$arr == n.schemaLexEvent.file.content.$arr && result.$off == n.schemaLexEvent.file.content.$off + n.schemaLexEvent.begin && len(result) == n.schemaLexEvent.end + 1 - n.schemaLexEvent.begin && cap(result) == cap(n.schemaLexEvent.file.content) - n.schemaLexEvent.begin
+
+//@ func (*LiteralNode).ASTNode()
+//@   props C16
+//@   requires n != nil && consReady(box(n)) && lexWF(n.schemaLexEvent) && n.schemaLexEvent.end + 1 - n.schemaLexEvent.begin <= 1000000000000
+//@   assumes hasRule(box(n), constraint.TypeConstraintType) && typeis(consOf(box(n)).data[constraint.TypeConstraintType], *constraint.TypeConstraint) ==> ival(consOf(box(n)).data[constraint.TypeConstraintType]) != 0 && len(unbox(consOf(box(n)).data[constraint.TypeConstraintType], *constraint.TypeConstraint).value) <= 1000000000000
+//@   maypanic
+//@   ensures normal ==> result1 == nil && spellsDecoded(result0.Value, lexBytes(n.schemaLexEvent))
+
+// C16: array elements in source order, one AST child per example element
+//@ func (*ArrayNode).ASTNode()
+//@   props C16
+//@   requires n != nil && consReady(box(n))
+//@   assumes forall i :: 0 <= i && i < len(n.children) ==> isNode(n.children[i])
+//@   assumes hasRule(box(n), constraint.TypeConstraintType) && typeis(consOf(box(n)).data[constraint.TypeConstraintType], *constraint.TypeConstraint) ==> ival(consOf(box(n)).data[constraint.TypeConstraintType]) != 0 && len(unbox(consOf(box(n)).data[constraint.TypeConstraintType], *constraint.TypeConstraint).value) <= 1000000000000
+//@   maypanic
+//@   ensures normal && result1 == nil ==> len(result0.Children) == len(n.children)
+//@   loop 0 invariant len(an.Children) == rangeindex + 1 && (an.Children.$arr == 0 || an.Children.$arr > old(alloc)) && l == len(n.children)
